@@ -55,6 +55,107 @@ def bad_call(g, ctx):
     return mk('cell_to_boundary', g.weird_cell(), *g.boundary_options())
 
 
+def derive(g, ctx, ops, callish):
+    """A call whose arguments are computed from the (oracle) result of a recent
+    earlier call of the same history: output fed back as input, the way real
+    programs chain the API (index a point, fetch the cell polygon, look its
+    vertices up again, walk to parents and children, compact and uncompact)."""
+    r = g.rng
+    if not callish:
+        return None
+    j = r.choice(callish[-4:]) if r.random() < 0.7 else r.choice(callish)
+    src = ops[j]
+    if 'f' not in src:
+        return None
+    f = src['f']
+    val = ctx.value({'f': f, 'a': src['a']})
+    if val is None:
+        return None
+    try:
+        a0 = canon.dec(src['a'][0]) if src['a'] else None
+    except Exception:
+        a0 = None
+    if f == 'cell_to_boundary' and isinstance(val, list) and val and isinstance(a0, int):
+        res = max(0, res_of(a0))
+        pt = r.choice(val)
+        x = r.random()
+        if x < 0.6:
+            return mk('lonlat_to_cell', pt, res)                       # exactly a boundary vertex
+        if x < 0.8:
+            q = r.choice(val)
+            return mk('lonlat_to_cell', ((pt[0] + q[0]) / 2, (pt[1] + q[1]) / 2), res)
+        return mk('lonlat_to_cell', pt, min(29, max(0, res + r.choice([-1, 1, 2]))))
+    if f == 'cell_to_lonlat' and isinstance(val, tuple) and isinstance(a0, int):
+        return mk('lonlat_to_cell', val, max(0, res_of(a0)) if r.random() < 0.8 else g.res())
+    if f == 'lonlat_to_cell' and isinstance(val, int):
+        x = r.randrange(8)
+        if x == 0:
+            return mk('cell_to_boundary', val, {'segments': 1, 'closed_ring': r.random() < 0.5})
+        if x == 1:
+            return mk('cell_to_boundary', val, *g.boundary_options())
+        if x == 2:
+            return mk('cell_to_lonlat', val)
+        if x == 3:
+            return mk('cell_to_parent', val)
+        if x == 4 and res_of(val) < 29:
+            return mk('cell_to_children', val)
+        if x == 5:
+            return mk('u64_to_hex', val)
+        if isinstance(a0, (tuple, list)) and len(a0) == 2 and len(src['a']) > 1:
+            res = canon.dec(src['a'][1])
+            if isinstance(res, int):
+                return mk('lonlat_to_cell', g.near(tuple(a0), max(0, res)), res)      # local walk, same resolution
+        return mk('get_resolution', val)
+    if f in ('cell_to_children', 'uncompact', 'get_res0_cells') and isinstance(val, list) and val:
+        x = r.random()
+        if x < 0.4:
+            lst = list(val)[:300]
+            if r.random() < 0.5 and len(lst) > 1:
+                del lst[r.randrange(len(lst))]
+            r.shuffle(lst)
+            return mk('compact', lst)
+        c = r.choice(val)
+        return mk(r.choice(['cell_to_boundary', 'cell_to_lonlat', 'cell_to_parent', 'get_resolution']), c)
+    if f == 'compact' and isinstance(val, list) and val:
+        top = max(res_of(c) for c in val)
+        lst = [c for c in val if res_of(c) >= max(1, top - 2)][:16]
+        return mk('uncompact', lst, min(30, top + r.randint(0, 1)))
+    if f == 'cell_to_parent' and isinstance(val, int):
+        return mk('cell_to_children', val) if res_of(val) >= 1 else mk('cell_to_lonlat', val)
+    if f == 'u64_to_hex' and isinstance(val, str):
+        return mk('hex_to_u64', val if r.random() < 0.7 else val.upper())
+    if f == 'hex_to_u64' and isinstance(val, int):
+        return mk('u64_to_hex', val)
+    return None
+
+
+def vertex_walk(g, ctx):
+    """Template: index a point, look the cell's centre up again, fetch the cell
+    polygon, then look every vertex of it up at the same resolution."""
+    r = g.rng
+    p, res = g.base()
+    res = max(0, min(res, 29))
+    if r.random() < 0.15:
+        p = (p[0], r.choice([90.0, -90.0]))
+    calls = [mk('lonlat_to_cell', p, res)]
+    c = ctx.value(calls[0])
+    if not isinstance(c, int):
+        return calls
+    centre = ctx.value(mk('cell_to_lonlat', c))
+    calls.append(mk('cell_to_lonlat', c))
+    if isinstance(centre, tuple):
+        calls.append(mk('lonlat_to_cell', centre, res))
+    bc = mk('cell_to_boundary', c, {'segments': 1, 'closed_ring': False})
+    calls.append(bc)
+    b = ctx.value(bc)
+    if isinstance(b, list):
+        vs = list(b)
+        r.shuffle(vs)
+        for v in vs[:r.randint(2, 5)]:
+            calls.append(mk('lonlat_to_cell', v, res))
+    return calls
+
+
 def full_warm(ctx):
     """A sweep that touches every face and (nearly) every triangle slot, plain
     and reflected, through the public API only.  Cached per worker."""
@@ -88,6 +189,11 @@ def gen_history(ctx, rng, tier, faults, force=None):
     elif start == 'full':
         warm = full_warm(ctx)
     bases = [g.base() for _ in range(rng.randint(1, 3))]
+    scenario = force.get('scenario') or wchoice(rng, {'random': 62, 'dataflow': 26, 'vertex-walk': 12})
+    p_derive = {'random': 0.12, 'dataflow': 0.6, 'vertex-walk': 0.2}[scenario]
+    script = vertex_walk(g, ctx) if scenario == 'vertex-walk' else []
+    if script:
+        L = max(L, len(script) + rng.randint(0, 6))
     if faults:
         weights = {'call': 32, 'repeat': 13, 'alias': 8, 'mutate_result': 13, 'mutate_arg': 8, 'bad_call': 8, 'interrupt': 14, 'recycle': 4}
     else:
@@ -99,8 +205,14 @@ def gen_history(ctx, rng, tier, faults, force=None):
         if kind != 'call' and kind != 'bad_call' and kind != 'interrupt' and not callish:
             kind = 'call'
         op = {'op': kind, 'id': i}
-        if kind == 'call':
-            op.update(_usable_call(g, ctx, mix, rng.choice(bases) if rng.random() < 0.8 else None))
+        if script and (kind in ('call', 'repeat', 'alias', 'recycle') and rng.random() < 0.8):
+            kind = op['op'] = 'call'
+            op.update(script.pop(0))
+        elif kind == 'call':
+            c = derive(g, ctx, ops, callish) if rng.random() < p_derive else None
+            if c is not None and not (ctx.usable(c) and ctx.oracle(c)['steps'] <= 400_000):
+                c = None
+            op.update(c or _usable_call(g, ctx, mix, rng.choice(bases) if rng.random() < 0.8 else None))
         elif kind == 'bad_call':
             c = bad_call(g, ctx)
             if not ctx.usable(c):
@@ -156,7 +268,7 @@ def gen_history(ctx, rng, tier, faults, force=None):
             callish.append(i)
         ops.append(op)
     return {'ops': ops, 'warm': warm, 'fingerprint': True,
-            'conf': {'mix': mix, 'start': start, 'faults': bool(faults), 'len': L}}
+            'conf': {'mix': mix, 'start': start, 'faults': bool(faults), 'len': L, 'scenario': scenario}}
 
 
 def judge(ctx, spec, out):
